@@ -60,7 +60,7 @@ func vGenVecBatch(prefix string, nDocs int, sim string) ([]index.Document, []sVe
 		doc := &vDoc{id: id, fields: []index.Field{vIDField(id)}}
 		nv := vChoice(fmt.Sprint(prefix, "nv", d), 3)
 		for i := 0; i < nv; i++ {
-			c := vChoice(fmt.Sprint(prefix, "vec", d, "_", i), len(vCatalogue))
+			c := vChoice(fmt.Sprint(prefix, "vec", d, "_", i), vParam("nCat", len(vCatalogue)))
 			doc.fields = append(doc.fields, &vVecField{name: "v", vec: vCatalogue[c], sim: sim})
 			vecs = append(vecs, sVec{uint64(d), vCatalogue[c]})
 		}
@@ -195,7 +195,7 @@ func (s *vStatsSink) Fetch() map[string]map[string]uint64            { return ni
 // H14_search: vector search against the exact stand-in engine.
 func H14_search() {
 	nDocs := 1 + vChoice("nDocs", vParam("maxDocs", 2))
-	sim := vSims[vChoice("sim", len(vSims))]
+	sim := vSims[vChoice("sim", vParam("nSims", len(vSims)))]
 	docs, vecs := vGenVecBatch("d", nDocs, sim)
 	var z ZapPlugin
 	segI, _, err := z.newWithChunkMode(docs, DefaultChunkMode)
@@ -214,9 +214,15 @@ func H14_search() {
 	}
 	except, excl := vExcept("ex", nDocs)
 	filtered := vBool("filtered")
+	// optionally another caller has the field open already (warm cache entry, created without a filter)
+	var pre segment.VectorIndex
+	if vParam("preOpen", 1) == 1 && vBool("preOpen") {
+		pre, err = seg.(segment.VectorSegment).InterpretVectorIndex("v", false, nil)
+		vAssert(err == nil && pre != nil, "pre-interpret")
+	}
 	vi, err := seg.(segment.VectorSegment).InterpretVectorIndex("v", filtered, except)
 	vAssert(err == nil && vi != nil, "interpret")
-	q := vCatalogue[vChoice("q", len(vCatalogue))]
+	q := vCatalogue[vChoice("q", vParam("nQueries", len(vCatalogue)))]
 	k := int64(vChoice("k", 4))
 	if filtered {
 		var elig []uint64
@@ -239,6 +245,9 @@ func H14_search() {
 	pl, err := vi.Search([]float32{1, 0, 0}, 3, nil)
 	vAssert(err == nil && pl != nil && pl.Count() == 0, "wrong-dim-empty")
 	vi.Close()
+	if pre != nil {
+		pre.Close()
+	}
 	nf, err := seg.(segment.VectorSegment).InterpretVectorIndex("nofield", false, nil)
 	vAssert(err == nil && nf != nil, "nofield")
 	pl, err = nf.Search(q, 3, nil)
